@@ -65,6 +65,8 @@ func (c *BindingManager) AddBinding(remoteDevice api.DeviceRemoteInterface, data
 		ClientFeature: clientFeature,
 	}
 
+	verifPoint("AddBinding.afterCheck", c)
+
 	c.mux.Lock()
 	defer c.mux.Unlock()
 
